@@ -672,7 +672,7 @@ pub fn run_write_script(version: u8, max_buf: Option<u32>, script: &[WOp], ctl: 
                         return Err(Fail::new(format!("write_fault|{}|fault_swallowed", wop_kind(op)), format!("a write/seek/flush fault fired during {:?} but the call returned Ok", op)));
                     }
                     // (c) successful flush => everything accepted is readable through a fresh handle
-                    if let Some(s) = flush_ok_slot {
+                    if let Some(s) = flush_ok_slot.filter(|&s| !handles[s].as_ref().unwrap().accepted.is_empty()) {
                         let (name, expected, after_fault) = {
                             let h = handles[s].as_ref().unwrap();
                             (h.name, h.accepted.clone(), h.saw_writeback_fault)
